@@ -498,6 +498,14 @@ def check(run: lib.Run, audit: dict) -> int:
         ok_pdpy, detail_pdpy = parse_dt_vs_python(run)
     run.obligation("translated _parse_dt evaluates like the real _parse_dt on the value grid × strict arguments, exceptions included "
                    "(harness/pytolean_rel.py + Model/PyRel.lean vs CPython; datetime conversions taken from CPython)", ok_pdpy, detail_pdpy)
+    # … and with BOTH former externals (`_parse_dt`, the `rel` branch: C13_translated) replaced by translations of the current source the
+    # whole evaluator is still evalCond.  Informational here: a failure that comes from the rel branch is C13's to report, one that comes
+    # from _parse_dt is reported by C04_parse_dt_translated above
+    ok_cl, detail_cl = lib.run_obligation("C04_eval_condition_closed", deps=["C04_translated", "C04_parse_dt_translated", "C13_translated"])
+    run.obligation("C04_eval_condition_closed: Src.eval_condition with the TRANSLATED _parse_dt and the TRANSLATED rel branch (run from the empty memo) "
+                   "in place of the hand-written externals = the model's evalCond, for every document, oracle, checker outcome function and env Guard "
+                   "builds (only getattr on non-dicts, _ctx_hash, awaitable resolution and the two datetime conversions stay parameters)", ok_cl,
+                   "discharged" if ok_cl else detail_cl)
     if ok_py and not ok_pdpy:
         detail_py = detail_pdpy
     ok_py = ok_py and ok_pdpy
